@@ -1,6 +1,7 @@
 package world
 
 import (
+	"bytes"
 	"crypto/sha256"
 	"encoding/base64"
 	"fmt"
@@ -189,6 +190,17 @@ func (l *SignedLog) Head(size int, who, extra string) []byte {
 		return b
 	}
 	l.mu.Unlock()
+	if base, ok := strings.CutSuffix(who, "-twice"); ok {
+		// the same head with every signature line written twice (byte-identical repetition)
+		b := l.Head(size, base, extra)
+		i := bytes.Index(b, []byte("\n\n"))
+		sigs := b[i+2:]
+		out := append(append(append([]byte(nil), b[:i+2]...), sigs...), sigs...)
+		l.mu.Lock()
+		l.heads[key] = out
+		l.mu.Unlock()
+		return out
+	}
 	k := TheKeys()
 	var signers []note.Signer
 	switch who {
